@@ -1,7 +1,6 @@
 package kernel
 
 import (
-	"crypto/ed25519"
 	"fmt"
 	"math/bits"
 	"math/rand"
@@ -9,59 +8,10 @@ import (
 	"testing"
 	"time"
 
-	"filippo.io/edwards25519"
 	"github.com/MixinNetwork/mixin/common"
 	"github.com/MixinNetwork/mixin/crypto"
 	"github.com/MixinNetwork/mixin/verifkit"
 )
-
-// vC09Cosi signs hash with the members at the given positions of the key vector.
-func vC09Cosi(h *verifHistory, hash crypto.Hash, cids []crypto.Hash, publics []*crypto.Key, positions []int) (*crypto.CosiSignature, error) {
-	nonces := map[int]*crypto.CosiNonce{}
-	commitments := map[int]*crypto.Key{}
-	for _, i := range positions {
-		n := crypto.CosiCommitNonce(crypto.RandReader())
-		c := n.Public()
-		nonces[i], commitments[i] = n, &c
-	}
-	sig, err := crypto.CosiAggregateCommitment(commitments)
-	if err != nil {
-		return nil, err
-	}
-	responses := map[int]*[32]byte{}
-	for _, i := range positions {
-		priv := h.privOf(cids[i])
-		if priv == nil {
-			return nil, fmt.Errorf("no private key for %s", cids[i])
-		}
-		resp, err := nonces[i].Response(sig, priv, publics, hash)
-		if err != nil {
-			return nil, err
-		}
-		responses[i] = resp
-	}
-	if err := sig.AggregateResponse(publics, responses, hash, true); err != nil {
-		return nil, err
-	}
-	return sig, nil
-}
-
-// vC09StdVerify verifies sig over msg under the plain sum of keys with the
-// standard library's Ed25519 (independent of the repository's crypto package).
-func vC09StdVerify(keys []crypto.Key, msg crypto.Hash, sig crypto.Signature) bool {
-	if len(keys) == 0 {
-		return false
-	}
-	sum := edwards25519.NewIdentityPoint()
-	for _, k := range keys {
-		p, err := edwards25519.NewIdentityPoint().SetBytes(k[:])
-		if err != nil {
-			return false
-		}
-		sum.Add(sum, p)
-	}
-	return ed25519.Verify(ed25519.PublicKey(sum.Bytes()), msg[:], sig[:])
-}
 
 type vC09Case struct {
 	h        *verifHistory
@@ -86,11 +36,29 @@ func (c *vC09Case) chain(node *Node) *Chain {
 // certificate of the reference key set at the snapshot's timestamp.
 func vC09Oracle(c *vC09Case, signers []crypto.Hash) string {
 	s := c.snap
-	ids, keys := c.h.refKeys(s.Timestamp, c.pledging, s.RoundNumber)
-	thr, _ := c.h.refThreshold(s.Timestamp, true)
 	if s.Signature == nil {
 		return "accepted without a signature"
 	}
+	bad := vC09OracleAt(c, signers, s.Timestamp)
+	if bad == "" {
+		return ""
+	}
+	// legacy rule (main network before the activation): the membership from before the operation window
+	// is a second admissible key set, if it is larger
+	if lts, ok := c.h.refLegacyTs(s.Timestamp); ok {
+		_, now := c.h.refKeys(s.Timestamp, c.pledging, s.RoundNumber)
+		_, before := c.h.refKeys(lts, c.pledging, s.RoundNumber)
+		if len(before) > len(now) && vC09OracleAt(c, signers, lts) == "" {
+			return ""
+		}
+	}
+	return bad
+}
+
+func vC09OracleAt(c *vC09Case, signers []crypto.Hash, at uint64) string {
+	s := c.snap
+	ids, keys := c.h.refKeys(at, c.pledging, s.RoundNumber)
+	thr, _ := c.h.refThreshold(at, true)
 	pop := bits.OnesCount64(s.Signature.Mask)
 	if pop < thr {
 		return fmt.Sprintf("mask names %d members, threshold is %d", pop, thr)
@@ -137,7 +105,13 @@ func TestVerif_C09(t *testing.T) {
 	nh := r.N(6, 300)
 	accepted, rejected := 0, 0
 	for hi := 0; hi < nh; hi++ {
-		h := verifRandomHistory(fmt.Sprintf("c09-%d-%d", r.Seed, hi), rng, 7+rng.Intn(14), 5+rng.Intn(36))
+		var h *verifHistory
+		if hi%3 == 2 {
+			h = verifLegacyHistory(fmt.Sprintf("c09-%d-%d", r.Seed, hi), rng, 8+rng.Intn(13), 5+rng.Intn(36))
+			r.Count("legacy_rule_histories", 1)
+		} else {
+			h = verifRandomHistory(fmt.Sprintf("c09-%d-%d", r.Seed, hi), rng, 7+rng.Intn(14), 5+rng.Intn(36))
+		}
 		node := h.node(t)
 		fresh := func() *Node { return h.node(t) }
 		times := h.boundaries(rng, 20)
@@ -146,6 +120,7 @@ func TestVerif_C09(t *testing.T) {
 		if len(times) > nq {
 			times = times[:nq]
 		}
+		times = append(vC09LegacyTimes(h, rng), times...)
 		for _, ts := range times {
 			c := &vC09Case{h: h}
 			// chain: an accepted member, or the pledging node's own chain at round 0
@@ -191,6 +166,32 @@ func TestVerif_C09(t *testing.T) {
 				continue
 			}
 			base := vC09Snapshot(c.chainId, round, ts, rng)
+			// legacy rule: certificates over the larger key vector from before the operation window, with the
+			// threshold of that vector, one signer less, and the (smaller) threshold of the current membership
+			if lts, ok := h.refLegacyTs(ts); ok {
+				lids, lpubs := chain.ConsensusKeys(round, lts)
+				lthr := node.ConsensusThreshold(lts, true)
+				if len(lids) > len(cids) && lthr <= len(lids) {
+					r.Count("legacy_rule_timestamps", 1)
+					for _, n := range []int{lthr, lthr - 1, thr, len(lids)} {
+						if n < 1 || n > len(lids) {
+							continue
+						}
+						pos := rng.Perm(len(lids))[:n]
+						sort.Ints(pos)
+						s := *base
+						sig, err := vC09Cosi(h, s.Hash, lids, lpubs, pos)
+						if err != nil {
+							r.Count("signing_errors", 1)
+							continue
+						}
+						s.Signature = sig
+						c.snap = &s
+						c.label = fmt.Sprintf("legacy-%d-of-%d-thr-%d-current-%d-thr-%d", n, len(lids), lthr, len(cids), thr)
+						vC09Judge(r, c, node, fresh(), "legacy-key-set", &accepted, &rejected)
+					}
+				}
+			}
 			// honest certificates
 			for _, n := range []int{thr, thr - 1, thr + rng.Intn(len(cids)-thr+1)} {
 				if n < 1 {
